@@ -466,7 +466,7 @@ def run_job(job):
 
 def main(chk):
     quick = chk.tier == "quick"
-    n = 160 if quick else 2000
+    n = 160 if quick else 900
     jobs = [{"id": "j%d" % i, "seed": job_seed(chk.seed, "C11", i), "queries": 2 if quick else 4, "thorough": not quick} for i in range(n)]
     nd = len(directed_queries())
     for lo in range(0, nd, 8):
